@@ -9,28 +9,43 @@ def obligations(tier):
         grid = [{"L1": l} for l in range(1, 11)] + [{"L1": 7, "L2": 7}, {"L1": 8, "L2": 7, "TAIL": 1}, {"L1": 2, "L2": 8}]
     else:
         grid = [{"L1": l} for l in range(1, 15)] + [{"L1": a, "L2": b, "TAIL": t} for a in (1, 6, 7, 8, 9) for b in (1, 6, 7, 8, 9) for t in (0, 2)]
-    spawn = Obl("spawn_commands", "spawn.c",
-        progs=[Prog("spawn.c", nomain=True)],
-        repo=["stralloc_catb.c", "stralloc_opyb.c", "stralloc_pend.c", "stralloc_cats.c", "stralloc_opys.c", "byte_copy.c",
-              "byte_rchr.c", "open_read.c", "substdio.c"],
-        lib=["ideal_substdio.c", "arena_stralloc.c"], defines={"ARENA_CAP": 48, "ARENA_SLOTS": 8},
-        sysrename=["read", "open", "fstat", "pipe", "close"],
-        grid=[{"NB": n} for n in ((4, 6, 8) if tier == "quick" else (4, 5, 6, 7, 8, 9, 10, 12))],
-        unwind_default=lambda p: p["NB"] + 3, unwind={"substdio_put": 60}, timeout=900,
-        functions=["spawn.c:getcmd", "spawn.c:docmd", "spawn.c:err", "spawn.c:okwrite", "open_read.c", "byte_rchr.c"],
-        cuts=["spawn() (qmail-lspawn.c/qmail-rspawn.c) -> observing stub", "coe -> no-op", "main loop, sigchld, report() outside this obligation"],
-        stubs=["read: the NB bytes in two chunks (symbolic split)", "open/fstat/pipe: may fail; fstat reports symbolic mode and owner",
-               "reports: ideal stream on descriptor 1"],
-        assumes=["command stream of exactly NB symbolic bytes holding at most one complete command; addressed slot free or in use (symbolic); "
-                 "conf-spawn (auto_spawn) set to 4 in the harness (delivery numbers 4..255 are then 'too big')"],
-        outside=["streams with several commands, commands longer than NB bytes, out-of-memory (flagabort) path"],
-        claim="every complete command is answered by exactly one error report carrying its delivery number or by one started delivery in its own free slot "
-              "inside the table; the message file is opened only if its id is digits and '/' starting with a digit; a delivery starts only for a regular file "
-              "owned by the queue user; incomplete commands have no effect; no descriptor leaks on refusals",
-        expect_witnesses=lambda p: ["incomplete_command_waits", "command_refused_with_report"] + (["delivery_started"] if p["NB"] >= 8 else []))
+    SPAWN_UNITS = ["stralloc_catb.c", "stralloc_opyb.c", "stralloc_pend.c", "stralloc_cats.c", "stralloc_opys.c", "byte_copy.c",
+                   "byte_rchr.c", "open_read.c", "substdio.c"]
+    spawn_err = Obl("spawn_err", "spawn.c", progs=[Prog("spawn.c", nomain=True)], repo=SPAWN_UNITS,
+        lib=["ideal_substdio.c", "arena_stralloc.c"], defines={"ARENA_CAP": 48, "ARENA_SLOTS": 8, "MODE": 1, "NB": 4},
+        sysrename=["read", "open", "fstat", "pipe", "close"], unwind_default=12, timeout=300,
+        functions=["spawn.c:err"], claim="err() writes <delivery number byte> <text> NUL to descriptor 1 and flushes (contract used by spawn_commands)",
+        expect_witnesses=["report_written"])
+    SPAWN_COMMON = dict(repo=SPAWN_UNITS, lib=["ideal_substdio.c", "arena_stralloc.c"],
+                        sysrename=["read", "open", "fstat", "pipe", "close"],
+                        stubs=["read: the NB bytes in two chunks (symbolic split)", "open/fstat/pipe: may fail; fstat reports symbolic mode and owner",
+                               "conf-spawn (auto_spawn) set to 4 in the harness"])
+    spawn_framing = Obl("spawn_getcmd", "spawn.c", progs=[Prog("spawn.c", nomain=True, cut=["docmd"])],
+        defines={"ARENA_CAP": 48, "ARENA_SLOTS": 8, "MODE": 0},
+        grid=[{"NB": n} for n in ((4, 6) if tier == "quick" else (4, 6, 7, 8))],
+        unwind_default=lambda p: p["NB"] + 3, timeout=900 if tier == "quick" else 3400, backend="cadical",
+        functions=["spawn.c:getcmd"], cuts=["docmd -> observer (proved by obligation spawn_docmd)"],
+        assumes=["command stream of exactly NB symbolic bytes, split at a symbolic point over two reads, then end of input"],
+        outside=["streams longer than NB bytes, out-of-memory (flagabort) path"],
+        claim="getcmd() executes every complete command exactly once, in order, with exactly its delivery number, message id, sender and recipient, "
+              "whatever the split into reads; an incomplete command has no effect",
+        expect_witnesses=lambda p: ["incomplete_command_waits", "one_command"] + (["two_commands"] if p["NB"] >= 8 else []), **SPAWN_COMMON)
+    spawn = Obl("spawn_docmd", "spawn.c", progs=[Prog("spawn.c", nomain=True, cut=["err"])],
+        defines={"ARENA_CAP": 48, "ARENA_SLOTS": 8, "MODE": 2},
+        grid=[{"ML": m, "RL": r} for (m, r) in (((1, 3), (3, 3), (4, 1)) if tier == "quick" else ((0, 3), (1, 3), (2, 3), (3, 3), (4, 3), (5, 4), (4, 1), (3, 0)))],
+        unwind_default=lambda p: p["ML"] + p["RL"] + 8, timeout=900,
+        functions=["spawn.c:docmd", "open_read.c", "byte_rchr.c"],
+        cuts=["err -> observed (contract proved by obligation spawn_err)", "spawn() (qmail-lspawn.c/qmail-rspawn.c) -> observing stub", "coe -> no-op"],
+        assumes=["one command: symbolic delivery number byte, message id of ML symbolic non-NUL bytes, recipient of RL symbolic non-NUL bytes, "
+                 "addressed slot free or in use, symbolic file type/owner, open/fstat/pipe/fork may fail"],
+        outside=["message ids longer than 5 bytes (the 100-byte limit is not executed)"],
+        claim="docmd() answers a command with exactly one error report carrying its delivery number or one started delivery in its own free slot inside the "
+              "table; open() only for ids made of digits and '/' starting with a digit; delivery only for a regular file owned by the queue user; no descriptor leak",
+        expect_witnesses=lambda p: ["delnum_too_big_refused"] + (["bad_messid_refused"] if p["ML"] >= 1 else [])
+                         + (["refused_after_open", "delivery_started"] if p["ML"] >= 1 and p["RL"] >= 3 else []), **SPAWN_COMMON)
     # the queue manager's side of the report channel (shared with C03)
     shared = borrow("C03", ["del_dochan", "del_dochan_truncation"], tier)
-    return shared + [spawn,
+    return shared + [spawn_err, spawn_framing, spawn,
         Obl("clean_requests", "clean.c",
             progs=[Prog("qmail-clean.c", main_as="clean_main", cut=["cleanuppid"])],
             repo=SMALL, lib=["ideal_substdio.c", "ideal_getln.c", "arena_stralloc.c"],
